@@ -29,38 +29,335 @@ L1(mn, opds) == Rec("C01", "Supported", mn, opds)
 
 (* ================================ C01 =================================== *)
 \* two-operand, same width
-C01_Two ==
+C01_Two(zz) ==
   { L1(mn, <<p[1], p[2]>>) : mn \in Alu \cup {"mov", "test", "xchg"}, p \in UNION {Pairs(w) : w \in {8, 16, 32, 64}} }
-C01_Cmov ==
+C01_Cmov(zz) ==
   { L1(mn, <<p[1], p[2]>>) : mn \in Cmovs \cup {"imul"}, p \in UNION {Pairs(w) : w \in {16, 32, 64}} }
-C01_Adx ==
+C01_Adx(zz) ==
   { L1(mn, <<p[1], p[2]>>) : mn \in {"adcx", "adox"}, p \in UNION {Pairs(w) : w \in {32, 64}} }
-C01_Movzx ==
+C01_Movzx(zz) ==
   { L1("movzx", <<a, b>>) : a \in Regs(16) \cup Regs(32) \cup Regs(64), b \in Regs(8) }
   \cup { L1("movzx", <<a, b>>) : a \in Regs(32) \cup Regs(64), b \in Regs(16) }
-C01_One ==
+C01_One(zz) ==
   { L1(mn, <<a>>) : mn \in {"inc", "dec", "neg", "not", "imul"}, a \in UNION {Regs(w) : w \in {8, 16, 32, 64}} }
   \cup { L1(mn, <<a>>) : mn \in {"push", "pop"}, a \in Regs(16) \cup Regs(64) }
   \cup { L1(mn, <<a>>) : mn \in Setccs, a \in Regs(8) }
   \cup { L1(mn, <<a>>) : mn \in {"call", "jmp"}, a \in Regs(64) }
-C01_Shift ==
+C01_Shift(zz) ==
   { L1(mn, <<a, ImHex(v)>>) : mn \in Shifts, a \in UNION {Regs(w) : w \in {8, 16, 32, 64}}, v \in {1, 5} }
   \cup { L1(mn, <<a, CL>>) : mn \in {"sal", "sar", "shl", "shr"}, a \in UNION {Regs(w) : w \in {8, 16, 32, 64}} }
-C01_Shd ==
+C01_Shd(zz) ==
   { L1(mn, <<p[1], p[2], ImHex(7)>>) : mn \in {"shld", "shrd"}, p \in UNION {Pairs(w) : w \in {16, 32, 64}} }
   \cup { L1("shld", <<p[1], p[2], CL>>) : p \in UNION {Pairs(w) : w \in {16, 32, 64}} }
-C01_Imul3 ==
+C01_Imul3(zz) ==
   { L1("imul", <<p[1], p[2], ImHex(v)>>) : p \in UNION {Pairs(w) : w \in {16, 32, 64}}, v \in {3} }
-C01_None == { L1(mn, <<>>) : mn \in NoOpd }
+C01_None(zz) == { L1(mn, <<>>) : mn \in NoOpd }
 
 RegOpds(r) == {r.ast.opds[j] : j \in {k \in 1..Len(r.ast.opds) : r.ast.opds[k].k = "r"}}
-CorpusC01 == { r \in C01_Two \cup C01_Cmov \cup C01_Adx \cup C01_Movzx \cup C01_One \cup C01_Shift \cup C01_Shd
-                      \cup C01_Imul3 \cup C01_None : Legal(RegOpds(r)) }
+CorpusC01(zz) == { r \in C01_Two(0) \cup C01_Cmov(0) \cup C01_Adx(0) \cup C01_Movzx(0) \cup C01_One(0) \cup C01_Shift(0) \cup C01_Shd(0)
+                      \cup C01_Imul3(0) \cup C01_None(0) : Legal(RegOpds(r)) }
+
+(* ================================ C02 =================================== *)
+KW(w) == CASE w = 8 -> "byte" [] w = 16 -> "word" [] w = 32 -> "dword" [] w = 64 -> "qword" [] OTHER -> ""
+D(neg, m, r) == [has |-> TRUE, neg |-> neg, m |-> m, r |-> r]
+NoD == [has |-> FALSE, neg |-> FALSE, m |-> <<0, 0, 0, 0>>, r |-> "hex"]
+Mem(kw, w, a, b, i, s, ord, d) ==
+  [k |-> "m", kw |-> kw, far |-> FALSE, w |-> w, a |-> a, b |-> b, i |-> i, s |-> s, ord |-> ord,
+   hasd |-> d.has, neg |-> d.neg, dm |-> d.m, dr |-> d.r]
+ShapeOK(b, i, s, ord, d) ==
+  /\ (i = -1 => s = 0)
+  /\ (i = -1 /\ b = -1 => d.has)
+  /\ (b = -1 /\ i >= 0 => s >= 1 /\ ord = "si")        \* documented spelling [scale*index +- disp]
+  /\ (i = 4 => s = 0 /\ b >= 0 /\ b # 4)               \* the stack pointer only as unscaled index
+  /\ (s = 0 => ord = "is")
+DispMags == { <<1,0,0,0>>, <<127,0,0,0>>, <<128,0,0,0>>, <<129,0,0,0>>, <<255,0,0,0>>, <<0,1,0,0>>,
+              <<255,127,0,0>>, <<0,128,0,0>>, <<255,255,255,127>>, <<120,86,52,18>>, <<239,205,171,9>> }
+DispAll == {NoD, D(FALSE, <<0,0,0,0>>, "hex"), D(TRUE, <<0,0,0,128>>, "hex")}
+           \cup {D(n, m, "hex") : n \in BOOLEAN, m \in DispMags}
+           \cup {D(n, m, "dec") : n \in BOOLEAN, m \in {<<8,0,0,0>>, <<127,0,0,0>>, <<128,0,0,0>>, <<16,39,0,0>>}}
+DispFew == {NoD, D(FALSE, <<16,0,0,0>>, "hex"), D(TRUE, <<128,0,0,0>>, "hex"), D(FALSE, <<69,35,1,0>>, "hex")}
+\* (A) every base x every index at every scale, few displacements
+ShapesA(a) == { Mem("", 0, a, b, i, s, ord, d) : b \in -1..15, i \in -1..15, s \in {0, 1, 2, 4, 8}, ord \in {"is", "si"}, d \in DispFew }
+\* (B) the special registers at every scale and order with every displacement
+ShapesB(a) == { Mem("", 0, a, b, i, s, ord, d) : b \in {-1, 0, 4, 5, 12, 13}, i \in {-1, 1, 4, 5, 9, 12, 13},
+                                                  s \in {0, 1, 2, 4, 8}, ord \in {"is", "si"}, d \in DispAll }
+\* (R) reduced product used under every other encoding class
+ShapesR(a) == { Mem("", 0, a, b, i, s, ord, d) : b \in {-1, 0, 4, 5, 9, 12, 13}, i \in {-1, 1, 9, 13},
+                                                  s \in {0, 4}, ord \in {"is", "si"},
+                                                  d \in {NoD, D(FALSE, <<16,0,0,0>>, "hex"), D(TRUE, <<129,0,0,0>>, "hex"), D(FALSE, <<128,0,0,0>>, "dec")} }
+OKShape(m) == ShapeOK(m.b, m.i, m.s, m.ord, [has |-> m.hasd])
+
+Shapes32 == {m \in ShapesB(32) : OKShape(m) /\ (m.b >= 0 \/ m.i >= 0)}
+ShapesRed == {m \in ShapesR(64) : OKShape(m)}
+             \cup {m \in ShapesR(32) : OKShape(m) /\ m.b \in {-1, 0, 5, 12} /\ m.i \in {-1, 9} /\ (m.hasd => ~m.neg) /\ (m.b >= 0 \/ m.i >= 0)}
+W(m, w, kw) == [m EXCEPT !.w = w, !.kw = kw]
+L2(mn, opds) == Rec("C02", "Supported", mn, opds)
+KwBoth(w) == {"", KW(w)}
+C02_LeaA(zz) == { L2("lea", <<G(64, 1), m>>) : m \in {x \in ShapesA(64) : OKShape(x)} }
+C02_LeaB(zz) == { L2("lea", <<G(64, 9), m>>) : m \in {x \in ShapesB(64) : OKShape(x)} }
+C02_LeaC(zz) == { L2("lea", <<G(32, 1), m>>) : m \in Shapes32 }
+C02_Class(m) ==
+     { L2("add", <<W(m, r.w, kw), r>>) : r \in {G(8, 1), G(16, 1), G(32, 9), G(64, 1)}, kw \in {""} }
+\cup { L2("mov", <<r, W(m, r.w, kw)>>) : r \in {G(8, 1), G(16, 10), G(32, 1), G(64, 9)}, kw \in {""} }
+\cup { L2("sub", <<W(m, 64, "qword"), G(64, 2)>>), L2("xor", <<G(32, 2), W(m, 32, "dword")>>) }
+\cup { L2(mn, <<G(w, 3), W(m, w, "")>>) : mn \in {"cmovne", "imul"}, w \in {16, 64} }
+\cup { L2("adcx", <<G(64, 3), W(m, 64, "")>>), L2("adox", <<G(32, 11), W(m, 32, "")>>), L2("xchg", <<G(64, 3), W(m, 64, "")>>),
+       L2("test", <<W(m, 32, ""), G(32, 3)>>) }
+\cup { L2(mn, <<W(m, w, KW(w))>>) : mn \in {"inc", "dec", "neg", "not"}, w \in {8, 16, 32, 64} }
+\cup { L2(mn, <<W(m, w, KW(w)), ImHex(5)>>) : mn \in {"add", "cmp", "test", "mov"}, w \in {8, 16, 32, 64} }
+\cup { L2("and", <<W(m, w, KW(w)), Im(FALSE, <<69,35,1,0,0,0,0,0>>, "hex", 0)>>) : w \in {32, 64} }
+\cup { L2(mn, <<W(m, w, KW(w)), ImHex(v)>>) : mn \in {"shl", "sar", "rcr"}, w \in {8, 64}, v \in {1, 5} }
+\cup { L2("shr", <<W(m, 32, "dword"), CL>>) }
+\cup { L2("imul", <<G(64, 3), W(m, 64, ""), ImHex(5)>>) }
+\cup { L2("shld", <<W(m, 64, ""), G(64, 10), ImHex(5)>>), L2("shld", <<W(m, 32, ""), G(32, 3), CL>>), L2("shrd", <<W(m, 16, ""), G(16, 3), ImHex(5)>>) }
+\cup { L2(mn, <<W(m, 64, kw)>>) : mn \in {"push", "call", "jmp"}, kw \in {"", "qword"} }
+\cup { L2(mn, <<[W(m, 80, "") EXCEPT !.far = TRUE]>>) : mn \in {"call", "jmp"} }
+\cup { L2(mn, <<W(m, 8, kw)>>) : mn \in {"setc", "setnle"}, kw \in {"", "byte"} }
+\cup { L2(mn, <<W(m, 8, "")>>) : mn \in {"clflush", "prefetchnta", "prefetcht0", "prefetcht1", "prefetcht2"} }
+\cup { L2("movzx", <<G(32, 1), W(m, 8, "byte")>>), L2("movzx", <<G(64, 9), W(m, 16, "word")>>), L2("movzx", <<G(16, 1), W(m, 8, "byte")>>) }
+\cup { L2("paddb", <<RegRec("m", 64, 1, FALSE), W(m, 64, "")>>), L2("pxor", <<RegRec("x", 128, 9, FALSE), W(m, 128, "")>>),
+       L2("pmulld", <<RegRec("x", 128, 1, FALSE), W(m, 128, "")>>), L2("movntdqa", <<RegRec("x", 128, 1, FALSE), W(m, 128, "")>>),
+       L2("movd", <<RegRec("x", 128, 1, FALSE), W(m, 32, "")>>), L2("movd", <<W(m, 32, ""), RegRec("x", 128, 9, FALSE)>>),
+       L2("movq", <<RegRec("x", 128, 1, FALSE), W(m, 64, "")>>), L2("movq", <<W(m, 64, ""), RegRec("x", 128, 9, FALSE)>>),
+       L2("movntq", <<W(m, 64, ""), RegRec("m", 64, 1, FALSE)>>) }
+\cup { L2("vpaddb", <<RegRec("y", 256, 1, FALSE), RegRec("y", 256, 9, FALSE), W(m, 256, "")>>),
+       L2("vpxor", <<RegRec("x", 128, 9, FALSE), RegRec("x", 128, 1, FALSE), W(m, 128, "")>>),
+       L2("vpmulld", <<RegRec("y", 256, 1, FALSE), RegRec("y", 256, 2, FALSE), W(m, 256, "")>>),
+       L2("vpermd", <<RegRec("y", 256, 1, FALSE), RegRec("y", 256, 2, FALSE), W(m, 256, "")>>),
+       L2("vperm2i128", <<RegRec("y", 256, 1, FALSE), RegRec("y", 256, 2, FALSE), W(m, 256, ""), ImHex(5)>>),
+       L2("vmovdqu", <<RegRec("y", 256, 1, FALSE), W(m, 256, "")>>), L2("vmovdqu", <<W(m, 256, ""), RegRec("y", 256, 9, FALSE)>>),
+       L2("vmovupd", <<RegRec("x", 128, 9, FALSE), W(m, 128, "")>>), L2("vmovupd", <<W(m, 128, ""), RegRec("x", 128, 1, FALSE)>>) }
+\cup { L2("bzhi", <<G(w, 1), W(m, w, ""), G(w, 10)>>) : w \in {32, 64} }
+\cup { L2("mulx", <<G(w, 1), G(w, 10), W(m, w, "")>>) : w \in {32, 64} }
+\cup { L2("rorx", <<G(w, 9), W(m, w, ""), ImHex(5)>>) : w \in {32, 64} }
+C02_Cls(sel(_)) == UNION {C02_Class(m) : m \in {x \in ShapesRed : sel(x)}}
+
+(* ================================ C03 =================================== *)
+Mag8(lo4, hi4) == lo4 \o hi4
+Z4 == <<0, 0, 0, 0>>
+ImmMags == { Mag8(<<0,0,0,0>>, Z4), Mag8(<<1,0,0,0>>, Z4), Mag8(<<127,0,0,0>>, Z4), Mag8(<<128,0,0,0>>, Z4), Mag8(<<129,0,0,0>>, Z4),
+             Mag8(<<224,0,0,0>>, Z4), Mag8(<<225,0,0,0>>, Z4), Mag8(<<255,0,0,0>>, Z4), Mag8(<<0,1,0,0>>, Z4),
+             Mag8(<<255,127,0,0>>, Z4), Mag8(<<0,128,0,0>>, Z4), Mag8(<<255,255,0,0>>, Z4), Mag8(<<0,0,1,0>>, Z4),
+             Mag8(<<255,255,255,127>>, Z4), Mag8(<<0,0,0,128>>, Z4), Mag8(<<1,0,0,128>>, Z4), Mag8(<<255,255,255,255>>, Z4),
+             Mag8(Z4, <<1,0,0,0>>), Mag8(<<255,255,255,255>>, <<255,255,255,127>>), Mag8(Z4, <<0,0,0,128>>),
+             Mag8(<<255,255,255,255>>, <<255,255,255,255>>),
+             Mag8(<<120,86,52,18>>, Z4), Mag8(<<240,222,188,154>>, <<120,86,52,18>>), Mag8(<<17,34,51,68>>, <<85,102,119,8>>),
+             Mag8(<<66,0,0,0>>, Z4), Mag8(<<57,48,0,0>>, Z4), Mag8(<<177,104,222,58>>, Z4), Mag8(<<21,205,91,7>>, <<0,0,0,0>>),
+             Mag8(<<239,190,173,222>>, Z4), Mag8(<<190,186,254,202>>, <<239,190,173,222>>) }
+ImmVals == { Im(n, m, r, 0) : n \in BOOLEAN, m \in ImmMags, r \in {"hex", "dec"} }
+           \ { Im(TRUE, m, r, 0) : m \in {x \in ImmMags : x[8] >= 128 /\ x # Mag8(Z4, <<0,0,0,128>>)}, r \in {"hex", "dec"} }
+ImmVals16d == { Im(FALSE, m, "hex", 16) : m \in ImmMags }        \* written with all 16 hex digits
+L3(mn, opds) == Rec("C03", "Supported", mn, opds)
+MemD == { Mem("", 0, 64, 0, -1, 0, "is", D(FALSE, <<16,0,0,0>>, "hex")), Mem("", 0, 64, 1, -1, 0, "is", NoD),
+          Mem("", 0, 64, 9, 1, 4, "is", NoD), Mem("", 0, 64, 0, -1, 0, "is", NoD) }
+C03_All(zz) ==
+     { L3(mn, <<G(w, n), v>>) : mn \in Alu \cup {"test", "mov"}, w \in {8, 16, 32, 64}, n \in {0, 1, 9}, v \in ImmVals }
+\cup { L3("mov", <<G(64, n), v>>) : n \in {0, 3, 12}, v \in ImmVals16d }
+\cup { L3(mn, <<W(m, w, KW(w)), v>>) : mn \in Alu \cup {"test", "mov"}, w \in {8, 16, 32, 64}, m \in MemD, v \in {x \in ImmVals : x.radix = "hex"} }
+\cup { L3("imul", <<G(w, 1), G(w, 9), v>>) : w \in {16, 32, 64}, v \in ImmVals }
+\cup { L3("imul", <<G(64, 1), W(CHOOSE m \in MemD : m.b = 1, 64, ""), v>>) : v \in ImmVals }
+\cup { L3("push", <<v>>) : v \in ImmVals }
+\cup { L3(mn, <<G(w, 1), v>>) : mn \in Shifts, w \in {8, 64}, v \in ImmVals }
+\cup { L3(mn, <<G(32, 1), G(32, 9), v>>) : mn \in {"shld", "shrd"}, v \in ImmVals }
+\cup { L3("rorx", <<G(64, 1), G(64, 9), v>>) : v \in ImmVals }
+\cup { L3("psrldq", <<RegRec("x", 128, 9, FALSE), v>>) : v \in ImmVals }
+\cup { L3("vperm2i128", <<RegRec("y", 256, 1, FALSE), RegRec("y", 256, 9, FALSE), RegRec("y", 256, 2, FALSE), v>>) : v \in ImmVals }
+\cup { L3("xabort", <<v>>) : v \in ImmVals }
+CorpusC03(zz) == { [prop |-> y.prop, status |-> y.status, ast |-> y.ast,
+                 flags |-> IF IsMovR64Imm(y.ast) /\ y.ast.opds[1].n = 0 THEN "x" ELSE "-"] :
+               y \in {z \in C03_All(0) : Representable(z.ast)} }
+
+(* ================================ C04 =================================== *)
+L4(mn, opds) == Rec("C04", "Supported", mn, opds)
+Xr(n) == RegRec("x", 128, n, FALSE)
+Yr(n) == RegRec("y", 256, n, FALSE)
+MMr(n) == RegRec("m", 64, n, FALSE)
+Corner == {0, 7, 8, 15}
+VFull == {"vpaddb", "vpmulld", "vpxor"}            \* one per (map, W) row class gets the full product
+C04_Mmx(zz) == { L4(mn, <<MMr(a), MMr(b)>>) : mn \in Packed16 \cup {"pand"}, a \in 0..7, b \in 0..7 }
+C04_Sse(zz) == { L4(mn, <<Xr(a), Xr(b)>>) : mn \in Packed16 \cup {"pand", "pmulld", "pmuldq", "cvtdq2pd", "cvtpd2dq", "divpd", "mulpd", "punpcklqdq", "movq"},
+                                       a \in 0..15, b \in 0..15 }
+C04_Mov(zz) == { L4("movd", <<Xr(a), G(32, b)>>) : a \in 0..15, b \in 0..15 } \cup { L4("movd", <<G(32, b), Xr(a)>>) : a \in 0..15, b \in 0..15 }
+      \cup { L4("movq", <<Xr(a), G(64, b)>>) : a \in 0..15, b \in 0..15 } \cup { L4("movq", <<G(64, b), Xr(a)>>) : a \in 0..15, b \in 0..15 }
+      \cup { L4("psrldq", <<Xr(a), ImHex(v)>>) : a \in 0..15, v \in {0, 5, 127, 128, 255} }
+Tri(S) == {<<a, b, c>> : a \in S, b \in S, c \in S}
+C04_VexX(mns, trip) == { L4(mn, <<Xr(t[1]), Xr(t[2]), Xr(t[3])>>) : mn \in mns, t \in trip }
+C04_VexY(mns, trip) == { L4(mn, <<Yr(t[1]), Yr(t[2]), Yr(t[3])>>) : mn \in mns, t \in trip }
+C04_VexRest(zz) == C04_VexX(VexPacked, Tri(Corner)) \cup C04_VexY(VexPacked \cup VOnly256, Tri(Corner))
+C04_VMov(zz) == { L4(mn, <<Xr(a), Xr(b)>>) : mn \in {"vmovupd", "vmovdqu"}, a \in 0..15, b \in 0..15 }
+       \cup { L4(mn, <<Yr(a), Yr(b)>>) : mn \in {"vmovupd", "vmovdqu"}, a \in 0..15, b \in 0..15 }
+       \cup { L4(mn, <<Yr(t[1]), Yr(t[2]), Yr(t[3]), ImHex(v)>>) : mn \in {"vperm2i128", "vperm2f128"}, t \in Tri(Corner \cup {3, 12}), v \in {0, 49, 128, 255} }
+C04_Bmi(full) ==
+     { L4(mn, <<G(w, t[1]), G(w, t[2]), G(w, t[3])>>) : mn \in Bmi \cup {"mulx"}, w \in {32, 64}, t \in IF full THEN Tri(0..15) ELSE Tri(Corner) }
+\cup { L4("rorx", <<G(w, a), G(w, b), ImHex(v)>>) : w \in {32, 64}, a \in 0..15, b \in 0..15, v \in {0, 5, 63, 128, 255} }
+C04_BmiFull(zz) == { r \in C04_Bmi(TRUE) : r.ast.mn \in {"bzhi", "mulx"} }
+MemV == { Mem("", 0, 64, 0, -1, 0, "is", NoD), Mem("", 0, 64, 12, -1, 0, "is", D(FALSE, <<16,0,0,0>>, "hex")),
+          Mem("", 0, 64, 13, 9, 4, "is", NoD), Mem("", 0, 64, 1, 15, 8, "is", D(TRUE, <<0,1,0,0>>, "hex")),
+          Mem("", 0, 64, 5, -1, 0, "is", NoD), Mem("", 0, 64, 4, 1, 2, "is", D(FALSE, <<127,0,0,0>>, "hex")),
+          Mem("", 0, 32, 0, 9, 1, "is", NoD), Mem("", 0, 64, -1, -1, 0, "is", D(FALSE, <<0,16,0,0>>, "hex")) }
+C04_MemForms(zz) ==
+     { L4(mn, <<MMr(a), W(m, 64, "")>>) : mn \in Packed16, a \in {0, 7}, m \in MemV }
+\cup { L4(mn, <<Xr(a), W(m, 128, "")>>) : mn \in Packed16 \cup {"pmulld", "pmuldq", "movntdqa"}, a \in {0, 7, 8, 15}, m \in MemV }
+\cup { L4(mn, <<Xr(a), Xr(b), W(m, 128, "")>>) : mn \in VexPacked, a \in {0, 15}, b \in {7, 8}, m \in MemV }
+\cup { L4(mn, <<Yr(a), Yr(b), W(m, 256, "")>>) : mn \in VexPacked \cup VOnly256, a \in {0, 15}, b \in {7, 8}, m \in MemV }
+\cup { L4(mn, <<Yr(a), W(m, 256, "")>>) : mn \in {"vmovupd", "vmovdqu"}, a \in Corner, m \in MemV }
+\cup { L4(mn, <<W(m, 256, ""), Yr(a)>>) : mn \in {"vmovupd", "vmovdqu"}, a \in Corner, m \in MemV }
+\cup { L4(mn, <<Xr(a), W(m, 128, "")>>) : mn \in {"vmovupd", "vmovdqu"}, a \in Corner, m \in MemV }
+\cup { L4(mn, <<W(m, 128, ""), Xr(a)>>) : mn \in {"vmovupd", "vmovdqu"}, a \in Corner, m \in MemV }
+\cup { L4(mn, <<G(w, a), W(m, w, ""), G(w, b)>>) : mn \in Bmi, w \in {32, 64}, a \in {0, 15}, b \in {7, 8}, m \in MemV }
+\cup { L4("mulx", <<G(w, a), G(w, b), W(m, w, "")>>) : w \in {32, 64}, a \in {0, 15}, b \in {7, 8}, m \in MemV }
+\cup { L4("rorx", <<G(w, a), W(m, w, ""), ImHex(5)>>) : w \in {32, 64}, a \in Corner, m \in MemV }
+\cup { L4(mn, <<Yr(a), Yr(b), W(m, 256, ""), ImHex(5)>>) : mn \in {"vperm2i128", "vperm2f128"}, a \in {0, 15}, b \in {7, 8}, m \in MemV }
+\cup { L4("movd", <<Xr(a), W(m, 32, "")>>) : a \in Corner, m \in MemV } \cup { L4("movd", <<W(m, 32, ""), Xr(a)>>) : a \in Corner, m \in MemV }
+\cup { L4("movq", <<Xr(a), W(m, 64, "")>>) : a \in Corner, m \in MemV } \cup { L4("movq", <<W(m, 64, ""), Xr(a)>>) : a \in Corner, m \in MemV }
+\cup { L4("movntq", <<W(m, 64, ""), MMr(a)>>) : a \in {0, 7}, m \in MemV }
+\cup { L4(mn, <<G(w, a), W(m, w, "")>>) : mn \in {"adcx", "adox"}, w \in {32, 64}, a \in Corner, m \in MemV }
+
+(* ================================ C05 =================================== *)
+RelMn == Jccs \cup {"jmp", "call", "jrcxz", "xbegin"}
+RelIm(kw, neg, mag, radix) == [k |-> "i", kw |-> kw, neg |-> neg, mag |-> mag, radix |-> radix, digits |-> 0]
+RelNear == { [neg |-> n, mag |-> Small(v)] : n \in BOOLEAN, v \in 0..129 } \ {[neg |-> TRUE, mag |-> Small(0)]}
+RelFar == { [neg |-> n, mag |-> Mag8(m, Z4)] : n \in BOOLEAN, m \in {<<255,127,0,0>>, <<0,128,0,0>>, <<255,255,255,127>>, <<120,86,52,18>>, <<0,0,1,0>>, <<57,48,0,0>>} }
+          \cup {[neg |-> TRUE, mag |-> Mag8(<<0,0,0,128>>, Z4)]}
+InRel8(v) == IF v.neg THEN (FitsZ(v.mag, 1) /\ v.mag[1] <= 128) ELSE (FitsZ(v.mag, 1) /\ v.mag[1] <= 127)
+RelStatus(mn, kw, v) ==
+  IF mn = "jrcxz" THEN (IF ~InRel8(v) THEN "Invalid" ELSE IF kw = "long" THEN "Unconstrained" ELSE IF kw = "short" THEN "MayReject" ELSE "Supported")
+  ELSE IF kw = "short" THEN (IF mn \in {"call", "xbegin"} THEN "Unconstrained" ELSE IF InRel8(v) THEN "MayReject" ELSE "Invalid")
+  ELSE "Supported"
+CorpusC05(zz) ==
+  { Rec("C05", RelStatus(mn, kw, v), mn, <<RelIm(kw, v.neg, v.mag, r)>>) :
+      mn \in RelMn, kw \in {"", "short", "long"}, v \in RelNear \cup RelFar, r \in {"hex"} }
+  \cup { Rec("C05", RelStatus(mn, kw, v), mn, <<RelIm(kw, v.neg, v.mag, "dec")>>) :
+      mn \in {"jmp", "jne", "call", "jrcxz", "xbegin"}, kw \in {"", "short", "long"},
+      v \in {x \in RelNear : x.mag[1] \in {0, 1, 126, 127, 128, 129}} \cup RelFar }
+C05_Mem(zz) == { Rec("C05", "Supported", mn, <<W(m, 64, "")>>) : mn \in {"jmp", "call"}, m \in {x \in ShapesB(64) : OKShape(x)} }
+      \cup { Rec("C05", "Supported", mn, <<[W(m, 80, "") EXCEPT !.far = TRUE]>>) : mn \in {"jmp", "call"}, m \in {x \in ShapesR(64) : OKShape(x)} }
+      \cup { Rec("C05", "Supported", mn, <<[W(m, 48, "dword") EXCEPT !.far = TRUE]>>) : mn \in {"jmp", "call"}, m \in {x \in ShapesR(64) : OKShape(x) /\ x.i = -1} }
+      \cup { Rec("C05", "Supported", mn, <<G(64, n)>>) : mn \in {"jmp", "call"}, n \in 0..15 }
+
+(* ================================ C10 =================================== *)
+Kinds5 == {"r", "v", "y", "m", "i"}
+RepOpd(k) == CASE k = "r" -> G(64, 1) [] k = "v" -> Xr(1) [] k = "y" -> Yr(1)
+               [] k = "m" -> Mem("", 64, 64, 0, -1, 0, "is", NoD) [] OTHER -> ImHex(5)
+KTuples(n) == [1..n -> Kinds5]
+KStr(t) == FoldLeft(LAMBDA acc, k : acc \o k, "", t)
+C10_Kinds(lens, first) ==
+  { Rec("C10", IF KindStatus(mn, KStr(t)) = "Invalid" THEN "Invalid" ELSE "Unconstrained", mn, [j \in 1..Len(t) |-> RepOpd(t[j])]) :
+      mn \in Mnemonics, t \in {x \in UNION {KTuples(n) : n \in lens} : Len(x) = 0 \/ x[1] \in first} }
+\* lexical malformations are token sequences ("<hh>" denotes the byte hh); all must be rejected
+Raw(cls, toks) == [prop |-> "C10", status |-> "Invalid", cls |-> cls, toks |-> toks]
+BadRegs == {"raxx", "eex", "rex", "r16", "r31", "r8q", "r8l", "r10x", "xmm16", "xmm99", "ymm16", "ymm32", "mm8", "mm9", "zmm0", "st0",
+            "ra", "rx", "eaxx", "axl", "sl", "bh1", "rsp1", "r15dd", "r15ww", "r15bb", "xmm", "ymm", "mm", "xmm1x", "k1", "cr0", "rip"}
+C10_Regs(zz) ==
+     { Raw("misspelt-register", <<"add", " ", b, ",", " ", "rcx">>) : b \in BadRegs }
+\cup { Raw("misspelt-register", <<"add", " ", "rcx", ",", " ", b>>) : b \in BadRegs }
+\cup { Raw("misspelt-register", <<"mov", " ", "[", b, "]", ",", " ", "rcx">>) : b \in BadRegs }
+\cup { Raw("misspelt-register", <<"lea", " ", "rcx", ",", " ", "[", "rax", "+", b, "]">>) : b \in BadRegs }
+\cup { Raw("misspelt-register", <<"lea", " ", "rcx", ",", " ", "[", "rax", "+", "4", "*", b, "]">>) : b \in BadRegs }
+\cup { Raw("misspelt-register", <<"vpaddb", " ", "ymm1", ",", " ", b, ",", " ", "ymm2">>) : b \in BadRegs }
+\cup { Raw("misspelt-register", <<"push", " ", b>>) : b \in BadRegs }
+\cup { Raw("misspelt-register", <<"paddb", " ", "xmm1", ",", " ", b>>) : b \in BadRegs }
+BadMn == {"foo", "addd", "mo", "movv", "ad", "xorr", "jmpp", "nop12", "nop0", "vpaddz", "leaa", "pushq", "a", "zzz", "cmovxx", "setzz"}
+C10_Mn(zz) == { Raw("unknown-mnemonic", <<b, " ", "rax", ",", " ", "rcx">>) : b \in BadMn }
+         \cup { Raw("unknown-mnemonic", <<b>>) : b \in BadMn } \cup { Raw("unknown-mnemonic", <<b, " ", "rax">>) : b \in BadMn }
+BadScales == {"0", "3", "5", "6", "7", "9", "10", "16"}
+MemUsers == { <<"lea", " ", "rcx", ",", " ">>, <<"mov", " ", "rcx", ",", " ">>, <<"add", " ", "qword", " ">>, <<"jmp", " ">>,
+              <<"paddb", " ", "xmm1", ",", " ">>, <<"vpaddb", " ", "ymm1", ",", " ", "ymm2", ",", " ">>, <<"inc", " ", "dword", " ">> }
+MemTail(u) == IF u[1] = "add" THEN <<",", " ", "rcx">> ELSE <<>>
+C10_Mem(zz) ==
+     { Raw("invalid-scale", u \o <<"[", "rax", "+", "rcx", "*", sc, "]">> \o MemTail(u)) : u \in MemUsers, sc \in BadScales }
+\cup { Raw("invalid-scale", u \o <<"[", "rax", "+", sc, "*", "rcx", "]">> \o MemTail(u)) : u \in MemUsers, sc \in BadScales }
+\cup { Raw("invalid-scale", u \o <<"[", sc, "*", "rcx", "]">> \o MemTail(u)) : u \in MemUsers, sc \in BadScales }
+\cup { Raw("invalid-scale", u \o <<"[", sc, "*", "rcx", "+", "0x10", "]">> \o MemTail(u)) : u \in MemUsers, sc \in BadScales }
+\cup { Raw("sp-scaled-index", u \o <<"[", "rax", "+", sp, "*", sc, "]">> \o MemTail(u)) : u \in MemUsers, sp \in {"rsp", "esp"}, sc \in {"1", "2", "4", "8"} }
+\cup { Raw("sp-scaled-index", u \o <<"[", "rax", "+", sc, "*", sp, "]">> \o MemTail(u)) : u \in MemUsers, sp \in {"rsp"}, sc \in {"1", "2", "4", "8"} }
+\cup { Raw("sp-scaled-index", u \o <<"[", sc, "*", sp, "]">> \o MemTail(u)) : u \in MemUsers, sp \in {"rsp", "esp"}, sc \in {"2", "4", "8"} }
+\cup { Raw("sp-scaled-index", u \o <<"[", sc, "*", sp, "+", "0x10", "]">> \o MemTail(u)) : u \in MemUsers, sp \in {"rsp"}, sc \in {"2", "4", "8"} }
+\cup { Raw("sp-base-and-index", u \o <<"[", sp, "+", sp, "]">> \o MemTail(u)) : u \in MemUsers, sp \in {"rsp", "esp"} }
+\cup { Raw("sp-base-and-index", u \o <<"[", "rsp", "+", "rsp", "+", "0x10", "]">> \o MemTail(u)) : u \in MemUsers }
+\cup { Raw("unclosed-bracket", u \o <<"[", "rax">> \o MemTail(u)) : u \in MemUsers }
+\cup { Raw("unclosed-bracket", u \o <<"[", "rax", "+", "rcx", "*", "4">> \o MemTail(u)) : u \in MemUsers }
+\cup { Raw("unclosed-bracket", u \o <<"[", "rax", "+", "0x10">> \o MemTail(u)) : u \in MemUsers }
+\cup { Raw("unclosed-bracket", u \o <<"[", "0x10">> \o MemTail(u)) : u \in MemUsers }
+C10_Empty(zz) ==
+     { Raw("empty-operand", <<mn, " ", ",", "rax">>) : mn \in {"add", "mov", "push", "imul", "vpaddb", "shld"} }
+\cup { Raw("empty-operand", <<mn, " ", "rax", ",", ",", "rbx">>) : mn \in {"add", "mov", "imul", "shld", "bzhi"} }
+\cup { Raw("empty-operand", <<mn, " ", "rax", ",", " ", ",", " ", "rbx">>) : mn \in {"add", "mov", "imul", "shld", "bzhi"} }
+\cup { Raw("empty-operand", <<mn, " ", "rax", ",">>) : mn \in {"add", "mov", "push", "inc", "imul"} }
+\cup { Raw("empty-operand", <<mn, " ", "rax", ",", " ">>) : mn \in {"add", "mov", "push", "inc", "imul"} }
+\cup { Raw("empty-operand", <<mn, " ", "rax", ",", " ", "rbx", ",">>) : mn \in {"add", "mov", "imul", "shld"} }
+\cup { Raw("empty-operand", <<"vpaddb", " ", "ymm1", ",", " ", ",", " ", "ymm2">>), Raw("empty-operand", <<"vpaddb", " ", "ymm1", ",", " ", "ymm2", ",">>),
+       Raw("empty-operand", <<"add", " ", ",">>), Raw("empty-operand", <<"add", " ", ",", ",">>) }
+\cup { Raw("operand-after-immediate", <<mn, " ", "rax", ",", " ", "0x5", ",", " ", x>>) : mn \in {"add", "mov", "shl", "imul", "test", "ror"}, x \in {"rcx", "0x1", "[rax]", "xmm1"} }
+\cup { Raw("operand-after-immediate", <<mn, " ", "0x5", ",", " ", x>>) : mn \in {"push", "jmp", "call", "xabort", "jne"}, x \in {"rcx", "0x1", "[rax]"} }
+HiBytes == { "<7f>", "<80>", "<81>", "<90>", "<a0>", "<c2>", "<c3>", "<e9>", "<fe>", "<ff>" }
+BaseLines == { <<"add", " ", "rax", ",", " ", "rcx">>, <<"mov", " ", "rcx", ",", " ", "[", "rax", "+", "0x10", "]">>, <<"ret">>,
+               <<"vpaddb", " ", "ymm1", ",", " ", "ymm2", ",", " ", "ymm3">>, <<"push", " ", "0x5">> }
+InsTok(t, k, b) == SubSeq(t, 1, k) \o <<b>> \o SubSeq(t, k + 1, Len(t))
+C10_Bytes(zz) == { Raw("non-ascii-byte", InsTok(t, k, b)) : t \in BaseLines \ {<<"ret">>}, k \in 0..3, b \in HiBytes }
+            \cup { Raw("non-ascii-byte", InsTok(<<"ret">>, k, b)) : k \in 0..1, b \in HiBytes }
+            \cup { Raw("non-ascii-byte", InsTok(t, Len(t), b)) : t \in BaseLines, b \in HiBytes }
+            \cup { Raw("non-ascii-byte", InsTok(t, Len(t) - 1, b)) : t \in BaseLines, b \in HiBytes }
+            \cup { Raw("non-ascii-byte", InsTok(t, Len(t), b) \o <<" ", ";", " ", "comment">>) : t \in BaseLines, b \in HiBytes }
+C10_Lex(zz) == C10_Regs(0) \cup C10_Mn(0) \cup C10_Mem(0) \cup C10_Empty(0) \cup C10_Bytes(0)
+
+(* ================================ C11 =================================== *)
+SpIdxShapes == { Mem("", 0, a, b, 4, 0, "is", d) : a \in {64, 32}, b \in {0, 5, 9, 12, 13},
+                 d \in {NoD, D(FALSE, <<16,0,0,0>>, "hex"), D(TRUE, <<129,0,0,0>>, "hex")} }
+NoBaseShapes == { Mem("", 0, a, -1, i, s, "si", d) : a \in {64, 32}, i \in {1, 5, 9, 12, 13}, s \in {1, 2, 4, 8},
+                  d \in {NoD, D(FALSE, <<16,0,0,0>>, "hex"), D(TRUE, <<16,0,0,0>>, "hex"), D(FALSE, <<0,1,0,0>>, "hex")} }
+C11_Sib(sel(_)) == { [r EXCEPT !.prop = "C11"] : r \in UNION {C02_Class(m) : m \in {x \in SpIdxShapes \cup NoBaseShapes : sel(x)}} }
+
+(* ================================ C16 =================================== *)
+\* concrete-syntax styles under which the emitted bytes must not change (applied token-wise by the harness)
+StyleDims == [ case   : {"lower", "upper", "mixed"},
+               sep    : {"space", "tab", "spaces"},
+               comma  : {",", ", ", " , ", ",tab"},
+               brack  : {"tight", "spaced", "uneven"},
+               indent : {"", "  ", "tab"},
+               trail  : {"", " ", " ; comment", ";c", "tab; x"},
+               eol    : {"none", "lf", "crlf"},
+               zeros  : {"asis", "lead"},
+               radix  : {"asis", "swap"} ]
+DefaultStyle == [case |-> "lower", sep |-> "space", comma |-> ", ", brack |-> "tight", indent |-> "", trail |-> "",
+                 eol |-> "none", zeros |-> "asis", radix |-> "asis"]
+Changed(st) == {d \in DOMAIN DefaultStyle : st[d] # DefaultStyle[d]}
+\* every style that differs from the canonical one in at most two dimensions (pairwise complete)
+Styles2(zz) == {st \in StyleDims : Cardinality(Changed(st)) <= 2}
+Styles3(zz) == {st \in StyleDims : Cardinality(Changed(st)) = 3}
+\* program decorations: lines that emit nothing
+DecorLines == { <<"">>, <<" ">>, <<"; only a comment">>, <<"label:">>, <<"  loop_1:">>, <<"section .text">>, <<"SECTION .data">>,
+                <<"global main">>, <<"GLOBAL _start">>, <<"% macro-like">>, <<"tab; c">> }
 
 (* ============================= selection ================================ *)
-Selected == CASE IOEnv.CORPUS = "C01" -> CorpusC01
+Selected == CASE IOEnv.CORPUS = "C01" -> CorpusC01(0)
+              [] IOEnv.CORPUS = "C02a" -> C02_LeaA(0)
+              [] IOEnv.CORPUS = "C02b" -> C02_LeaB(0)
+              [] IOEnv.CORPUS = "C02c" -> C02_LeaC(0)
+              [] IOEnv.CORPUS = "C02d" -> C02_Cls(LAMBDA m : m.a = 64 /\ m.b < 5)
+              [] IOEnv.CORPUS = "C02e" -> C02_Cls(LAMBDA m : m.a = 64 /\ m.b >= 5 /\ m.b < 12)
+              [] IOEnv.CORPUS = "C02f" -> C02_Cls(LAMBDA m : m.a = 64 /\ m.b >= 12)
+              [] IOEnv.CORPUS = "C02g" -> C02_Cls(LAMBDA m : m.a = 32)
+              [] IOEnv.CORPUS = "C03" -> CorpusC03(0)
+              [] IOEnv.CORPUS = "C04a" -> C04_Mmx(0) \cup C04_Sse(0) \cup C04_Mov(0) \cup C04_VMov(0)
+              [] IOEnv.CORPUS = "C04b" -> C04_VexRest(0) \cup C04_Bmi(FALSE)
+              [] IOEnv.CORPUS = "C04c" -> C04_MemForms(0)
+              [] IOEnv.CORPUS = "C04d" -> C04_VexX(VFull, Tri(0..15))
+              [] IOEnv.CORPUS = "C04e" -> C04_VexY(VFull, Tri(0..15))
+              [] IOEnv.CORPUS = "C04f" -> C04_BmiFull(0)
+              [] IOEnv.CORPUS = "C05" -> CorpusC05(0)
+              [] IOEnv.CORPUS = "C05m" -> C05_Mem(0)
+              [] IOEnv.CORPUS = "C10a" -> C10_Kinds(0..3, Kinds5)
+              [] IOEnv.CORPUS = "C10b" -> C10_Kinds({4}, {"r"})
+              [] IOEnv.CORPUS = "C10c" -> C10_Kinds({4}, {"v", "y"})
+              [] IOEnv.CORPUS = "C10d" -> C10_Kinds({4}, {"m", "i"})
+              [] IOEnv.CORPUS = "C10x" -> C10_Lex(0)
+              [] IOEnv.CORPUS = "C11s" -> C11_Sib(LAMBDA m : m.a = 64)
+              [] IOEnv.CORPUS = "C11t" -> C11_Sib(LAMBDA m : m.a = 32)
+              [] IOEnv.CORPUS = "STYLES2" -> Styles2(0)
+              [] IOEnv.CORPUS = "STYLES3" -> Styles3(0)
+              [] IOEnv.CORPUS = "DECOR" -> {[toks |-> d] : d \in DecorLines}
               [] OTHER -> {}
-ASSUME PrintT(<<"CORPUS", IOEnv.CORPUS, Cardinality(Selected)>>)
 ASSUME ndJsonSerialize(IOEnv.OUT, SetToSeq(Selected))
 VARIABLE x
 Init == x = 0
